@@ -8,7 +8,9 @@ from multiprocessing import Pool
 
 import hub_ctl as hc
 
-CONTENTS = {"c1": b"A" * 9000 + b"one\n", "c2": b"B" * 12000 + b"two\n", "c3": b"C" * 7000 + b"three\n"}
+# c2 ends in a long run of zero bytes, c3 is nothing but zero bytes (sparse-file and "skip the zeros" shortcuts must
+# still deliver every byte that was hashed)
+CONTENTS = {"c1": b"A" * 9000 + b"one\n", "c2": b"B" * 12000 + b"two\n" + b"\0" * 150_000, "c3": b"\0" * 70_000}
 CFG = {}
 
 # programs mirrored from spec/MC_Hub.tla (server id -> list of requests)
@@ -189,8 +191,17 @@ def execute(job):
             return rng.choice(cands)
         return cands[0]
     kill_plan = {kill[0]: kill[1]} if kill else None
+    import signal
+
+    def _alarm(signum, frame):
+        raise TimeoutError("execution exceeded 120 s (controller blocked)")
+    signal.signal(signal.SIGALRM, _alarm)
+    signal.alarm(120)
     try:
-        final = r.run(choose, kill_plan=kill_plan)
+        try:
+            final = r.run(choose, kill_plan=kill_plan)
+        finally:
+            signal.alarm(0)
     except Exception as e:          # controller trouble is tool trouble, never a verdict
         for s in r.servers:
             try:
